@@ -16,10 +16,16 @@ Section World.
   Record world : Type := mkW {
     orc : nat -> E -> E * R;
     Gen : nat -> (E * E * R) -> Prop;
-    (* the oracle's outputs are genuine samples *)
+    (* a stationary point of each function and its value (only used by [MStat]) *)
+    stat : nat -> E * R;
+    (* the oracle's outputs are genuine samples; at the stationary point the zero vector is one *)
     orc_genuine : forall f x, Gen f (x, fst (orc f x), snd (orc f x));
+    stat_genuine : forall f, Gen f (fst (stat f), vzero, snd (stat f));
     (* genuineness only looks at the gradient through inner products *)
-    Gen_veq : forall f x g g' v, Gen f (x, g, v) -> veq g g' -> Gen f (x, g', v)
+    Gen_veq : forall f x g g' v, Gen f (x, g, v) -> veq g g' -> Gen f (x, g', v);
+    (* ... and at the point through its value as seen by every inner product (the stationary sample's point
+       is read back as 1 * leaf + 0) *)
+    Gen_xveq : forall f x x' g v, Gen f (x, g, v) -> veq x x' -> Gen f (x', g, v)
   }.
 
   Definition upd {A} (h : nat -> A) (k : nat) (a : A) : nat -> A :=
@@ -33,6 +39,8 @@ Section World.
     | MEval f p =>
         let x := evalP (fst vs) p in
         (upd (fst vs) (m_np s) (fst (orc W f x)), upd (snd vs) (m_ne s) (snd (orc W f x)))
+    | MStat f =>
+        (upd (fst vs) (m_np s) (fst (stat W f)), upd (snd vs) (m_ne s) (snd (stat W f)))
     end.
 
   Fixpoint wrun (W : world) (ops : list mop) (s : mstate) (vs : (nat -> E) * (nat -> R))
